@@ -18,7 +18,7 @@ ASSUMPTIONS = ["oracle hedmon/oracle/schema_xml.py reads the bundled XML with xm
                "extension words (Zzqext, Qqmore) are not schema terms in any bundled schema"]
 MIN_MONITOR_EVALS = {"same-node": 5000, "forms": 5000, "suffix-verbatim": 2000, "inverse-idempotent": 5000,
                      "bulk-convert": 1000, "generated-schema-node": 500, "entry-of-this-schema": 5000,
-                     "interleaved-versions": 500}
+                     "interleaved-versions": 500, "placeholder-child-lookup": 500}
 WATCHDOG_S = {"quick": 900, "thorough": 3600}
 VALUES = ["/3", "/3 s", "/Abc-1", "/XyZ 1", "/#", "/7.5 mV"]
 EXTS = ["/Zzqext", "/Zzqext/Qqmore", "/ZZqExt"]
@@ -113,6 +113,12 @@ def check_node(schema, ns, node, rng, ncases, rec, label, entries, bulk):
                 if not ok:
                     rec.violation("long(short(t)) / short(long(t)) / idempotence broken", case)
                 if not suffix:
+                    if node.takes_value:
+                        # the '#' child under every spelling of its parent
+                        gh = schema.get_tag_entry(spelled + "/#", schema_namespace=ns)
+                        rec.mon("placeholder-child-lookup")
+                        if gh is None or gh.name != node.path + "/#" or gh is not schema.tags.get(node.path + "/#"):
+                            rec.violation("schema.get_tag_entry does not find the '#' child under a spelling of its parent", case)
                     got = schema.get_tag_entry(spelled, schema_namespace=ns)
                     got_p = schema.get_tag_entry(ns + spelled, schema_namespace=ns)     # the prefix may be written
                     if got is not e or got_p is not e:
